@@ -112,6 +112,18 @@ func C14(seed int64, n int) (*cq.Set, *cq.Interner) {
 		if !reflect.DeepEqual(before, pod) {
 			set.GoFails = append(set.GoFails, cq.GoFail{What: "evaluating a pod modified its metadata or spec", Replay: map[string]interface{}{"before": before, "after": pod}})
 		}
+		// purity across inputs: the long-lived evaluator (which has seen every earlier pod, all under the same uid
+		// and resourceVersion) must answer like an evaluator constructed just now
+		if fresh, err := policy.NewEvaluator(policy.DefaultChecks()); err == nil {
+			for _, lv := range []api.LevelVersion{{Level: api.LevelBaseline, Version: api.LatestVersion()}, {Level: api.LevelRestricted, Version: api.LatestVersion()}, {Level: api.LevelBaseline, Version: api.MajorMinorVersion(1, 0)}} {
+				a := o.Evaluator.EvaluatePod(lv, &pod.ObjectMeta, &pod.Spec)
+				b := fresh.EvaluatePod(lv, &pod.ObjectMeta, &pod.Spec)
+				if !reflect.DeepEqual(a, b) {
+					set.GoFails = append(set.GoFails, cq.GoFail{What: "the evaluator's answer for a pod depends on the pods it evaluated before (a freshly constructed evaluator answers differently) at " + lv.String(), Replay: map[string]interface{}{"pod": pod, "long_lived": a, "fresh": b}})
+					break
+				}
+			}
+		}
 		a := enc.Alpha(&pod.ObjectMeta, &pod.Spec)
 		keys := make([]string, 0, len(a.Annotations))
 		for k := range a.Annotations {
